@@ -14,7 +14,7 @@
 //! vocabulary); (c) random larger lists (0..=8 items, generated strings and comments, random shapes).
 //! A comment outside the rewriter model (block comment with a bare line) is never used: candidates are
 //! filtered through the model (`lists.rc` answers `unsupported`) before any case is built.
-use rustfmt_nightly::verif_hooks::lists as hl;
+use rustfmt_nightly::verif_hooks::list_write as hl;
 use rustfmt_nightly::Config;
 
 use crate::util::*;
@@ -188,8 +188,8 @@ impl<'a> Sink<'a> {
 }
 
 const ITEM_STRS: &[&str] = &["a", "bbb", "x::y", "", "f(\n    1,\n)", "    z", "q,"];
-const PRE_COMMENTS: &[&str] = &["/* p */", "// p", "// p\n// pp", "", "/* p\n * pp */", "  /* sp */"];
-const POST_COMMENTS: &[&str] = &["// q", "/* q */", "\n// nq", "/* q\n * qq */", "", " // sq", "// a long trailing comment"];
+const PRE_COMMENTS: &[&str] = &["/* p */", "// p", "// p\n// pp", "", "/* p\n * pp */", "  /* sp */", "/* p */ // pp"];
+const POST_COMMENTS: &[&str] = &["// q", "/* q */", "\n// nq", "/* q\n * qq */", "", " // sq", "// a long trailing comment", "/* q */ // qq", "/* q */\n/* qq */"];
 const SEPARATORS: &[&str] = &[",", " |", "", ";"];
 
 fn all_formattings(full: bool) -> Vec<hl::Formatting> {
